@@ -8,12 +8,11 @@ TABLES = []
 
 BOUNDED = [("rt-contracts", fuzz_job(CONTRACTS))]
 for _kind in ("p2sh", "p2wsh"):
-    BOUNDED.append(("describe-%s-n1" % _kind, hp.job_describe(_kind, 1)))
-    for _n in (2, 3):
-        for _m in range(1, _n + 1):
-            BOUNDED.append(("describe-%s-n%d-m%d" % (_kind, _n, _m), hp.job_describe(_kind, _n, ms=(_m,))))
+    BOUNDED.append(("describe-%s-n1n2" % _kind, hp.job_describe(_kind, (1, 2))))
+    for _m in (1, 2, 3):
+        BOUNDED.append(("describe-%s-n3-m%d" % (_kind, _m), hp.job_describe(_kind, (3,), ms=(_m,))))
     for _m in (1, 2, 3, 4):
-        BOUNDED.append(("describe-%s-n4-m%d" % (_kind, _m), hp.job_describe(_kind, 4, ms=(_m,), quick_skip=True)))
+        BOUNDED.append(("describe-%s-n4-m%d" % (_kind, _m), hp.job_describe(_kind, (4,), ms=(_m,), quick_skip=True)))
 
 TRUSTED_BASE = ["pyvc symbolic executor (A-ENGINE)", "z3 5.1", "spec functions verif/specs/psbt.py (A-SPEC: BIP174 parser, commitment of a scriptPubKey "
                 "to a script by hash, exact m-of-n script shape, BIP32 CKDpub over an own secp256k1 implementation, review summary)",
